@@ -163,22 +163,48 @@ def evloopAdd (f : Sched) (e : EvLoop) (h : Heap) : Except Err (EvLoop Ã— Bool Ã
 
 /-! ## net/socket_evloop_handle.c -/
 
-/-- `muggle_socket_evloop_handle_init`: context queue (no node pool: cannot fail further), then
-the mutex block; any failure goes through `muggle_socket_evloop_handle_destroy` -/
-def sockhInit (f : Sched) (h : Heap) : Except Err (Two Ã— Bool Ã— Heap) :=
+structure SockH where
+  q : Cell := .null          -- handle->ctx_queue
+  mtx : Cell := .null        -- handle->mtx
+  queue : NC := {}           -- *ctx_queue (no node pool)
+  deriving DecidableEq, Repr
+
+def SockH.owned (s : SockH) : Int := s.q.owned + s.mtx.owned + s.queue.owned
+def SockH.show (s : SockH) : String := s!"{s.q.ch}{s.mtx.ch},n={s.queue.size}"
+
+/-- `muggle_socket_evloop_handle_destroy`: mutex block, then the queue (its nodes; the contexts
+still queued are the caller's) and the queue block -/
+def sockhDestroy (s : SockH) (h : Heap) : Except Err (SockH Ã— Heap) := do
+  let h â† free s.mtx h
+  if s.q â‰  .null then do
+    deref s.q
+    let (_, h) â† ncDestroy s.queue h
+    let h â† free s.q h
+    pure ({}, h)
+  else pure ({}, h)
+
+/-- `muggle_socket_evloop_handle_init`: context queue (no node pool: `muggle_queue_init(q, 0)`
+cannot fail), then the mutex block; any failure goes through `â€¦_handle_destroy` -/
+def sockhInit (f : Sched) (h : Heap) : Except Err (SockH Ã— Bool Ã— Heap) :=
   let (q, h) := alloc f h
   if q = .null then .ok ({}, false, h)
   else
     let (m, h) := alloc f h
     if m = .null then do
-      let h â† free q h
-      pure ({}, false, h)
-    else .ok ({ a := q, b := m }, true, h)
+      let (s, h) â† sockhDestroy { q := q } h
+      pure (s, false, h)
+    else .ok ({ q := q, mtx := m }, true, h)
 
-def sockhDestroy (t : Two) (h : Heap) : Except Err (Two Ã— Heap) := do
-  let h â† free t.b h
-  let h â† free t.a h
-  pure ({}, h)
+/-- `muggle_socket_evloop_add_ctx` (fix C18-socket-evloop-add-ctx-report: returns whether the
+context was queued): one queue node, then the wake-up -/
+def sockhAddCtx (f : Sched) (s : SockH) (h : Heap) : Except Err (SockH Ã— Bool Ã— Heap) :=
+  match deref s.q, deref s.mtx with
+  | .error e, _ => .error e
+  | _, .error e => .error e
+  | .ok _, .ok _ =>
+    match ncInsert f s.queue h with
+    | .error e => .error e
+    | .ok (qu, ok, h) => .ok ({ s with queue := qu }, ok, h)
 
 /-! ## net/socket_evloop_pipe.c, net/socket.c -/
 
